@@ -36,7 +36,7 @@ fn skip_vs_read(mode: u8, data: &[u8], ctx: Ctx, j: usize, variant: u8, obs: &[i
 
 pub fn run(em: &mut Emitter, rng: &mut Rng, thorough: bool) {
     let ctxs = [Ctx::Top, Ctx::Definite, Ctx::Indefinite];
-    for _ in 0..(if thorough { 60_000 } else { 6_000 }) {
+    for _ in 0..(if thorough { 240_000 } else { 6_000 }) {
         let mode = rng.below(3) as u8;
         let ctx = *rng.pick(&ctxs);
         if !ctx_ok(mode, ctx) { continue }
@@ -103,7 +103,7 @@ pub fn run(em: &mut Emitter, rng: &mut Rng, thorough: bool) {
             }
         }
     }
-    for _ in 0..(if thorough { 200_000 } else { 20_000 }) {
+    for _ in 0..(if thorough { 800_000 } else { 20_000 }) {
         let mode = rng.below(3) as u8;
         let n = rng.range(0, 10) as usize;
         let mut d = rng.bytes(n);
